@@ -387,7 +387,9 @@ def check_c10(tier, seed):
             continue
         body = [slim(e) for e in a["events"]]
         pa = a["events"][0].get("payload", "")
-        pb = b.get("events", [{}])[0].get("payload", "") if "events" in b else "?"
+        if "events" not in b:      # the second run of the case hung or aborted twice although the first did not
+            raise core.ToolError(f"second process gave no result for case {j['id']}: {str(b)[:120]}")
+        pb = b["events"][0].get("payload", "")
         evs.append(head + body + [{"ev": "Repro", "first": pa, "second": pb, "where": "second process"}])
     tr = core.tlc_trace("Trace_Lang", evs, "c10", nproc=8 if quick else 12)
     rep.add_trace(tr)
